@@ -4,7 +4,7 @@
    PARTIAL: bookkeeping proved; "a result of an exited activation is discarded" is REFUTED for a completion event
    that is already queued (finding F9); a rolled-back entry leaves its services running (finding F19). *)
 From XSM Require Import Model.Macro Proofs.TimerP Proofs.LifeP.
-From XSM Require Import Model.TreeLib Gen.GenGeom Proofs.SkeletonBridge.
+From XSM Require Import Model.TreeLib Gen.GenGeom Proofs.SkeletonBridge Proofs.LifeBridge.
 
 (* a service that is referenced but not registered is fatal at entry *)
 Theorem C09_missing_service_is_fatal : forall eng x i s,
@@ -78,5 +78,13 @@ Theorem C09_exit_order_is_the_source_sync : forall eng pr m l ev s, eng <> Async
   run_exit_skeleton GenGeom.exit_skeleton_sync eng pr m l ev s = exit_states eng pr m l ev s.
 Proof. exact exit_skeleton_sync_bridge. Qed.
 Print Assumptions C09_exit_order_is_the_source_sync.
+
+(* "a failure with no onError handler puts the interpreter into the error status": _fail (shared by both engines) acts unless
+   the status is neither running nor uninitialized - the test it starts with, re-translated from the current source *)
+Theorem C09_fail_test_is_the_source : forall m s,
+  (GenGeom.fail_ignored m (status_name (s_status s)) = true -> fail_machine s = s) /\
+  (GenGeom.fail_ignored m (status_name (s_status s)) = false -> s_status (fail_machine s) = Errored).
+Proof. exact fail_ignored_bridge. Qed.
+Print Assumptions C09_fail_test_is_the_source.
 
 
